@@ -140,6 +140,50 @@ func checkC04(w *World) {
 				}
 			}
 			w.check(P, "R04.2", "strconv.ParseFloat in "+fn.Name(), c.Pos(), guarded, fmt.Sprintf("guarded by a package-local validator on the same string: %v %s", guarded, validator))
+			// whitespace stripped before validation must be XML whitespace only
+			wsBad := ""
+			wsSeen := false
+			allInstrs(fn, func(in2 ssa.Instruction) {
+				tc, ok := in2.(*ssa.Call)
+				if !ok || staticCallee(tc) == nil {
+					return
+				}
+				n := funcFullName(staticCallee(tc))
+				switch n {
+				case "strings.TrimSpace", "strings.Fields", "strings.TrimFunc", "strings.TrimLeftFunc", "strings.TrimRightFunc", "unicode.IsSpace":
+					wsBad = n + " uses Unicode's whitespace class (strips U+00A0, U+0085, U+2003, \\v, \\f ...)"
+				case "strings.Trim", "strings.TrimLeft", "strings.TrimRight":
+					wsSeen = true
+					if cut, ok := constString(tc.Call.Args[1]); ok {
+						set := map[rune]bool{}
+						for _, r := range cut {
+							set[r] = true
+						}
+						if !(len(set) == 4 && set[' '] && set['\t'] && set['\r'] && set['\n']) {
+							wsBad = fmt.Sprintf("%s with cutset %q, XML whitespace is exactly #x20 #x9 #xD #xA", n, cut)
+						}
+					} else {
+						wsBad = n + " with a non-constant cutset"
+					}
+				}
+			})
+			if !wsSeen && validator != "" {
+				// whitespace may be skipped by the validator itself: it must then test the four characters
+				if vf := w.member("exec", validator); vf != nil {
+					cs := map[int64]bool{}
+					allInstrs(vf, func(in3 ssa.Instruction) {
+						if bo, ok := in3.(*ssa.BinOp); ok {
+							for _, o := range []ssa.Value{bo.X, bo.Y} {
+								if k, ok := constInt(o); ok {
+									cs[k] = true
+								}
+							}
+						}
+					})
+					wsSeen = cs[0x20] && cs[0x9] && cs[0xD] && cs[0xA]
+				}
+			}
+			w.check(P, "R04.2", "whitespace stripped before the number syntax check in "+fn.Name(), c.Pos(), wsBad == "" && wsSeen, fmt.Sprintf("leading/trailing XML whitespace (#x20 #x9 #xD #xA, nothing else) is accepted: %v %s", wsSeen, wsBad))
 			if guarded {
 				// the validator must not itself delegate to ParseFloat or a regexp of unknown language; it must reject on characters: requires comparisons with '0','9','.','-'
 				w.validatorShape(P, validator)
